@@ -12,7 +12,7 @@ HexDigit(n) == IF n < 10 THEN 48 + n ELSE 87 + n
 Hex(b) == Flat([i \in 1..Len(b) |-> <<HexDigit(b[i] \div 16), HexDigit(b[i] % 16)>>])
 HasSchema(ty) == ty \in DOMAIN Schema
 \* C03 speaks about a transaction and its parts: block-level types are decoded and round-tripped (C01, C02) but not held to the Conway CDDL
-TxPart(ty) == ty \notin {"header_body", "header", "block", "operational_cert", "vrf_cert"}
+TxPart(ty) == ty \notin {"header_body", "header", "block", "operational_cert", "vrf_cert", "versioned_block"}
 InClass(b) == LET it == Parse(b) IN IF IsErr(it) THEN it.why ELSE "well-formed"
 TextJudge(e) == IF Has(e.r, "panic") THEN Fail("C02", "Parse/" \o e.entry \o "/panic", e.sc, [why |-> e.r.panic, input |-> e.s])
                 ELSE IF Has(e, "valid") /\ e.valid /\ ~Has(e.r, "ok") THEN Emit([t |-> "TOOLFAIL", what |-> "a valid text form was refused: " \o e.entry, sc |-> e.sc])
@@ -28,6 +28,9 @@ Judge(e) ==
        \* a value BUILT through the typed API must decode from its own bytes; a generated instance may be refused (noted)
        (IF Has(e, "constructed") THEN Fail("C01", "Roundtrip/" \o ty \o "/own-bytes-do-not-decode/constructed-" \o e.constructed, sc, [bytes |-> e["in"], err |-> r.err])
         ELSE IF gen THEN Note("C01", "generated-instance-not-accepted", sc, [ty |-> ty]) ELSE TRUE)
+  ELSE IF Has(e, "constructed_same") /\ e.constructed_same = "no" THEN
+       \* the value was BUILT through the typed API (constructors, setters): decoding its serialization has to give it back
+       Fail("C01", "Roundtrip/" \o ty \o "/decoded-differs-from-the-constructed-value/" \o e.constructed, sc, [bytes |-> e["in"]])
   ELSE IF Has(r, "ser_panic") THEN Fail("C02", "Reserialize/" \o ty \o "/panic", sc, [why |-> r.ser_panic, input |-> e["in"]])
   ELSE LET b == r.to_bytes it == Parse(b) IN
     /\ Obl("C02", sc, <<ty, Len(e["in"]), "accepted">>)
